@@ -273,7 +273,9 @@ AccountingExact == numItems = Cardinality(tracked) /\ totalBytes = SumLen(tracke
 NoOrphanFiles == Quiescent /\ mode = "open" /\ ~planted => \A i \in Item : disk[i] # "none" => i \in tracked
 
 \* C13: after an insertion the byte total does not exceed the capacity (items never larger than capacity)
-CapacityBound == overfull \/ totalBytes <= Capacity
+\* (C13's proviso: "provided no single item is larger than the capacity"; put accepts such an item after evicting
+\* everything else)
+CapacityBound == overfull \/ totalBytes <= Capacity \/ \E i \in tracked : ILen(i) > Capacity
 
 \* C12: a hit never returns bytes other than those put
 HitsGood == \A t \in Threads : res[t] # "hit_bad"
